@@ -797,8 +797,9 @@ spif_dlinked_list_insert_at(spif_dlinked_list_t self, spif_obj_t obj, spif_listi
         }
         return spif_dlinked_list_append(self, obj);
     } else if (idx > (self->len / 2)) {
-        for (current = self->tail, i = self->len - 1; current->prev && i > idx; i--, current = current->prev);
-        if (i != idx) {
+        /* Stop on the item at idx - 1; the new item goes in after it. */
+        for (current = self->tail, i = self->len - 1; current->prev && i >= idx; i--, current = current->prev);
+        if (i != idx - 1) {
             return FALSE;
         }
     } else {
